@@ -23,11 +23,15 @@ package bcl
 //@ ghost var lx_err bool            // the last token sent was tERR
 //@ ghost var ev_sent_tokens token   // the last token sent
 //@ ghost var ev_close_tokens int
+//@ ghost var ev_recv_tokens int       // tokens received by the parser
+//@ ghost var ev_val_tokens token      // the last token received by the parser
 //
 // Window invariant: the window input[0..len) holds the stream bytes
 // [posShift, posShift+len), and posShift+len is the number of bytes received;
 // the cursor stays inside the window, also across backup/unbackup.
 //@ invariant [C06,C07,C08,C11,C20] lexwin (l *lexer): 0 <= l.start && l.start <= l.pos && l.pos <= len(l.input) && l.posShift >= 0 && l.posShift + len(l.input) == g.ev_bytes_inputs && l.lpUpd != nil && 0 <= l.width && l.width <= 4 && (g.bk == 0 ==> l.start <= l.pos - l.width) && (g.bk == 1 ==> l.pos + l.width <= len(l.input))
+// the typestate ghosts say what the last token sent was
+//@ invariant [C11,C06] token_log (l *lexer): g.ev_send_tokens >= 0 && (g.ev_send_tokens == 0 ==> !g.lx_fin && !g.lx_err) && (g.ev_send_tokens > 0 ==> g.lx_fin == (g.ev_sent_tokens.typ <= tEOF) && g.lx_err == (g.ev_sent_tokens.typ == tERR))
 //@ invariant [C07,C20] window_is_a_piece_of_the_source (l *lexer): l.posShift + len(l.input) <= len(g.ev_src_inputs) && (g.ev_closed_inputs ==> l.posShift + len(l.input) == len(g.ev_src_inputs)) && (forall i int :: 0 <= i && i < len(l.input) ==> l.input[i] == g.ev_src_inputs[l.posShift + i])
 //
 // next(): refill and decode one character.
